@@ -134,3 +134,15 @@ MUTANTS["C13"] = [
     ("result_unit_other", "lentil/radiometry.py", "        return Spectrum(wave, value, self.waveunit, self.valueunit)", "        return Spectrum(wave, value, other.waveunit if isinstance(other, Spectrum) else self.waveunit, self.valueunit)"),
     ("method_ignored", "lentil/radiometry.py", "        interp = scipy.interpolate.interp1d(spectrum.wave, spectrum.value, kind=method,", "        interp = scipy.interpolate.interp1d(spectrum.wave, spectrum.value, kind='linear',"),
 ]
+MUTANTS["C14"] = [
+    ("micron_to_angstrom", "lentil/radiometry.py", "            return 1e4\n        else:\n            raise ValueError('Unknown waveunit: ' + waveunit)\n\n\nclass Nanometer", "            return 1e5\n        else:\n            raise ValueError('Unknown waveunit: ' + waveunit)\n\n\nclass Nanometer"),
+    ("nm_to_um", "lentil/radiometry.py", "        elif waveunit.lower() in ['um', 'micron']:\n            return 1e-3\n", "        elif waveunit.lower() in ['um', 'micron']:\n            return 1e-2\n"),
+    ("to_value_direction", "lentil/radiometry.py", "                    self.wave = self.wave * self._waveunit.to(unit)\n                    self.value = self.value / self._waveunit.to(unit)", "                    self.wave = self.wave * self._waveunit.to(unit)\n                    self.value = self.value * self._waveunit.to(unit)"),
+    ("flam_power_of_ten", "lentil/radiometry.py", "            return flux * (H*C)/wave * 1e7 * 1e-4", "            return flux * (H*C)/wave * 1e7 * 1e4"),
+    ("wlam_to_flam", "lentil/radiometry.py", "        elif fluxunit.lower() == 'flam':\n            return flux * 1e7 * 1e-4\n        elif fluxunit.lower() == 'wlam':\n            return flux\n", "        elif fluxunit.lower() == 'flam':\n            return flux * 1e7 * 1e-3\n        elif fluxunit.lower() == 'wlam':\n            return flux\n"),
+    ("exitance_2pi", "lentil/radiometry.py", "    flux = 2*np.pi*H*C**2/(wave**5*(np.exp(H*C/(wave*K*temp))-1))", "    flux = 4*np.pi*H*C**2/(wave**5*(np.exp(H*C/(wave*K*temp))-1))"),
+    ("radiance_unit_back", "lentil/radiometry.py", "        # just convert flux back to W m^-2 <waveunit>^-1\n        return flux / Meter().to(waveunit)", "        # just convert flux back to W m^-2 <waveunit>^-1\n        return flux * Meter().to(waveunit)"),
+    ("vega_wave_unit", "lentil/radiometry.py", "    wave = wave * Meter().to(waveunit)  # m -> <waveunit>", "    wave = wave * Meter().to('nm')  # m -> <waveunit>"),
+    ("spectrum_to_flux_wave", "lentil/radiometry.py", "                    self.value = self._valueunit.to(value, unit, wave) / Meter().to(self.waveunit)", "                    self.value = self._valueunit.to(value, unit, self.wave) / Meter().to(self.waveunit)"),
+    ("alias_micron", "lentil/radiometry.py", "        elif name.lower() in ['um', 'micron']:\n            return Micron()", "        elif name.lower() in ['um']:\n            return Micron()\n        elif name.lower() == 'micron':\n            return Nanometer()"),
+]
